@@ -454,3 +454,44 @@ func verifC02_msgtype() {
 	c.CloseNow()
 	vObserve("msgtype", int(typ), len(frames))
 }
+
+// C01.many-chunks: one message streamed in a great many Writer.Write calls (every call puts a frame on the wire): the
+// receiver reassembles exactly the message, however many frames it takes.
+func verifC01_many_chunks() {
+	client := vParam("client", 1) == 1
+	vInstallRand().concrete = true
+	n := vParam("chunks", 1100)
+	ts := vNewTransport(nil)
+	ts.endMode = vEndBlock
+	snd := vNewConn(ts, client, nil, 16, 4096)
+	w, err := snd.Writer(vBG, MessageBinary)
+	vAssert(err == nil, "C01.chunks.writer-ok")
+	if err != nil {
+		return
+	}
+	sym := vBytes("b", 3) // a few arbitrary bytes at the start, in the middle and at the end; the rest is a counter
+	want := make([]byte, n)
+	for i := 0; i < n; i++ {
+		want[i] = byte(i)
+	}
+	want[0], want[n/2], want[n-1] = sym[0], sym[1], sym[2]
+	for i := 0; i < n; i++ {
+		k, err := w.Write(want[i : i+1])
+		if err != nil || k != 1 {
+			vAssert(false, "C01.chunks.write-ok")
+			return
+		}
+	}
+	vAssert(w.Close() == nil, "C01.chunks.close-ok")
+	vReach("C01.chunks.sent")
+	tr := vNewTransport(ts.out)
+	tr.endMode = vEndEOF
+	rcv := vNewConn(tr, !client, nil, 4096, 64)
+	rcv.SetReadLimit(-1)
+	typ, got, rerr := rcv.Read(vBG)
+	vAssert(vAnd(rerr == nil, typ == MessageBinary), "C01.chunks.received")
+	vAssert(vEqBytes(got, want), "C01.chunks.roundtrip")
+	snd.CloseNow()
+	rcv.CloseNow()
+	vObserve("chunks", n, len(got))
+}
